@@ -312,6 +312,14 @@ func vfhC04Scan() {
 	vfAssert(g.Scan(wkb) == nil && vfGeomBits(g, src), "Geometry.Scan([]byte) round trips")
 	var g2 Geometry
 	vfAssert(g2.Scan(string(wkb)) == nil && vfGeomBits(g2, src), "Geometry.Scan(string) round trips")
+	// the decoded geometry owns its data: a driver may reuse the buffer for the next row
+	reuse := append([]byte{}, wkb...)
+	var g4 Geometry
+	vfAssert(g4.Scan(reuse) == nil, "Scan of a private copy of the bytes")
+	for i := range reuse {
+		reuse[i] ^= 0x5a
+	}
+	vfAssert(vfGeomBits(g4, src), "overwriting the scanned buffer afterwards does not change the geometry")
 	var g3 Geometry
 	vfAssert(g3.Scan(42) != nil, "other source types are rejected")
 	var dp Point
